@@ -2,8 +2,14 @@ import Grol.Suite
 import Grol.Trie
 /-
 Driver side of the `trie` correspondence suite and the executable statement of C20.
-Case input:   <inserted words, hex, comma separated>;<query hex>
+Case input:   <inserted words, hex, comma separated>;<query hex>[;<cursor position, default = end of the query>]
 Observation:  c=<0|1>;n=<int>;all=<hex list>;ac=<hex>:<int> | ac=none
+  (c, n, all: Contains / PrefixAll of the query; ac: the completion callback on line = query, pos = cursor)
+
+Sessions (`object.record` / `RegisterTrie`: which words the REPL inserts):
+Case input:   R;<hex input>|<hex input>|...;<query hex>[;<cursor>]
+Observation:  ids=<store after RegisterTrie>|<store after input 1>|...;c=..;n=..;all=..;ac=..
+  store = <hex name>:<F|V>,... (the top-level bindings, F = its value is a function)
 -/
 namespace Grol.TrieSuite
 open Grol.Wire Grol.Trie
@@ -21,10 +27,10 @@ def Obs.render (o : Obs) : String :=
     | none => "none"
     | some (b, l) => s!"{if b.isEmpty then "-" else hexOfBytes b}:{l}"
 
-def modelObs (ws : List Bytes) (q : Bytes) : Obs :=
+def modelObs (ws : List Bytes) (q : Bytes) (pos : Nat) : Obs :=
   let t := build ws
   let r := prefixAll t q
-  { contains := contains t q, n := r.1, all := r.2, ac := complete t q }
+  { contains := contains t q, n := r.1, all := r.2, ac := complete t q pos }
 
 /-! ### executable specification (independent of the trie) -/
 
@@ -50,21 +56,33 @@ def specLcpLen : List Bytes → Nat
   | w :: ws => (ws.foldl lcp w).length
 
 /-- C20's statement evaluated on one observation (of the model or of the implementation) -/
-def statement (ws : List Bytes) (q : Bytes) (o : Obs) : Bool :=
+def statement (ws : List Bytes) (q : Bytes) (pos : Nat) (o : Obs) : Bool :=
   let all := specAll ws q
+  -- completion looks at what is before the cursor only
+  let typed := q.take pos
+  let cands := specAll ws typed
   o.contains == (!q.isEmpty && ws.contains q)
   && o.all == all
   && (all.isEmpty || o.n == specLcpLen all)
   && (match o.ac with
-      | none => all.isEmpty
-      | some (b, l) => !all.isEmpty && l == b.length && q.isPrefixOf b && all.any (fun w => b.isPrefixOf w))
+      | none => cands.isEmpty
+      | some (b, l) =>
+        -- the new line is: something that extends what was typed before the cursor and is a prefix of an inserted
+        -- word, the cursor right after it, then what was after the cursor, unchanged
+        !cands.isEmpty && l ≤ b.length && typed.isPrefixOf (b.take l) && cands.any (fun w => (b.take l).isPrefixOf w)
+        && b.drop l == q.drop pos)
 
-def parseInput (s : String) : Option (List Bytes × Bytes) :=
+def parseInput (s : String) : Option (List Bytes × Bytes × Nat) :=
   match splitOn s ';' with
   | [ws, q] => do
     let ws ← bytesListOfHex ws
     let q ← bytesOfHex q
-    pure (ws, q)
+    pure (ws, q, q.length)
+  | [ws, q, p] => do
+    let ws ← bytesListOfHex ws
+    let q ← bytesOfHex q
+    let p ← p.toNat?
+    if p ≤ q.length then pure (ws, q, p) else none   -- line[:pos] with pos > len(line) is not a call the terminal makes
   | _ => none
 
 /-- returns (model observation rendered, statement on model, statement on impl?) -/
@@ -90,13 +108,85 @@ end Grol.TrieSuite
 namespace Grol.TrieSuite
 open Grol.Wire Grol.Trie
 
+/-! ### sessions: `object.record` / `RegisterTrie` -/
+
+/-- `object.record`: a name is inserted as `name(` (function) or `name ` (anything else), and as `name` -/
+def record (name : Bytes) (isFunc : Bool) : List Bytes :=
+  [name ++ [if isFunc then 40 else 32], name]
+
+abbrev Store := List (Bytes × Bool)
+
+def parseStore (s : String) : Option Store :=
+  if s.isEmpty then some [] else
+  (splitOn s ',').mapM fun e =>
+    match splitOn e ':' with
+    | [n, k] => do
+      let n ← bytesOfHex n
+      if k = "F" then some (n, true) else if k = "V" then some (n, false) else none
+    | _ => none
+
+/-- the words a session inserts: `RegisterTrie` records every binding present and the magic `info `; afterwards
+`Environment.create` records each NEW top-level name with the type of its first value (an update records nothing, a
+deletion removes nothing) -/
+def sessionWords : List Store → List Bytes
+  | [] => []
+  | s0 :: rest =>
+    let init := (s0.flatMap fun (n, f) => record n f) ++ [[105, 110, 102, 111, 32]]
+    let rec go (prev : Store) : List Store → List Bytes
+      | [] => []
+      | st :: more =>
+        ((st.filter fun (n, _) => !(prev.any fun (m, _) => m == n)).flatMap fun (n, f) => record n f) ++ go st more
+    init ++ go s0 rest
+
+/-- the part of C20 that is about the REPL's own use of the index: everything a prefix query returns is `info `, or
+`name`, `name(`, `name ` for a name that was bound at top level at some point of the session; and every name bound
+now is a member -/
+def sessionStatement (stores : List Store) (q : Bytes) (o : Obs) : Bool :=
+  let names := (stores.flatMap fun st => st.map (·.1))
+  let defined (w : Bytes) : Bool :=
+    w == [105, 110, 102, 111, 32] || names.contains w
+    || (match w.getLast? with
+        | some c => (c == 40 || c == 32) && names.contains w.dropLast
+        | none => false)
+  o.all.all defined
+  && (match stores.getLast? with
+      | some last => last.all fun (n, _) => !q.isPrefixOf n || o.all.contains n
+      | none => true)
+
+def parseSessionObs (s : String) : Option (List Store × Obs) :=
+  match splitOn s ';' with
+  | ids :: rest =>
+    if !ids.startsWith "ids=" then none else do
+    let stores ← (splitOn (ids.drop 4).toString '|').mapM parseStore
+    let o ← parseObs (";".intercalate rest)
+    pure (stores, o)
+  | _ => none
+
 def runCase (inp obs : String) : CaseResult :=
+  match splitOn inp ';' with
+  | "R" :: progs :: q :: posf =>
+    match bytesOfHex q, parseSessionObs obs, (match posf with | [] => some none | [p] => p.toNat?.map some | _ => none) with
+    | some q, some (stores, io), some pos? =>
+      let pos := pos?.getD q.length
+      if pos > q.length then CaseResult.badLine else
+      let ws := sessionWords stores
+      let mo := modelObs ws q pos
+      let nInputs := (splitOn progs '|').length
+      { model := mo.render, agree := mo == io && stores.length == nInputs + 1,
+        stmtModel := statement ws q pos mo && sessionStatement stores q mo,
+        stmtImpl := statement ws q pos io && sessionStatement stores q io,
+        tags := ["session", if mo.all.isEmpty then "session-all-empty" else "session-all-some",
+                 if pos < q.length then "cursor-inside" else "cursor-at-end"],
+        nontrivial := stores.length > 1 }
+    | _, _, _ => CaseResult.badLine
+  | _ =>
   match parseInput inp, parseObs obs with
-  | some (ws, q), some io =>
-    let mo := modelObs ws q
-    { model := mo.render, agree := mo == io, stmtModel := statement ws q mo, stmtImpl := statement ws q io,
+  | some (ws, q, pos), some io =>
+    let mo := modelObs ws q pos
+    { model := mo.render, agree := mo == io, stmtModel := statement ws q pos mo, stmtImpl := statement ws q pos io,
       tags := [if mo.all.isEmpty then "all-empty" else if mo.all.length == 1 then "all-one" else "all-many",
-               if mo.contains then "member" else "non-member"],
+               if mo.contains then "member" else "non-member",
+               if pos < q.length then "cursor-inside" else "cursor-at-end"],
       nontrivial := !ws.isEmpty }
   | _, _ => CaseResult.badLine
 
